@@ -74,15 +74,37 @@ pub fn run(ctx: &mut Ctx) {
             }
             answers.extend(run.answers.iter().map(|a| a.line()));
         }
-        // primitives on an explicitly constructed DefaultEngine + the associated function eval_poly
+        // primitives on an explicitly constructed DefaultEngine, each observed in isolation
+        let trace_rounds = ISA_TRACE.swap(0, Ordering::SeqCst);
         let e = DefaultEngine::new();
         let mut x = vec![[7u8; 64]; 3];
         e.mul(&mut x, 12345);
         answers.push(to_hex(&x.concat()));
+        let trace_mul = ISA_TRACE.swap(0, Ordering::SeqCst);
+        let mut data = vec![[3u8; 64]; 8];
+        {
+            let mut r = reed_solomon_simd::engine::ShardsRefMut::new(8, 1, &mut data);
+            e.fft(&mut r, 0, 8, 8, 8);
+        }
+        let trace_fft = ISA_TRACE.swap(0, Ordering::SeqCst);
+        {
+            let mut r = reed_solomon_simd::engine::ShardsRefMut::new(8, 1, &mut data);
+            e.ifft(&mut r, 0, 8, 8, 8);
+        }
+        let trace_ifft = ISA_TRACE.swap(0, Ordering::SeqCst);
+        // the associated function eval_poly has its own, independent detection
         let mut er = Box::new([0u16; 65536]);
         for j in (0..3000).step_by(7) { er[j] = 1; }
         DefaultEngine::eval_poly(&mut er, 3000);
-        let trace = ISA_TRACE.load(Ordering::SeqCst);
+        let trace_eval = ISA_TRACE.swap(0, Ordering::SeqCst);
+        let trace = trace_rounds | trace_mul | trace_fft | trace_ifft | trace_eval;
+        let best0 = if avx2 { ISA_AVX2 } else if ssse3 { ISA_SSSE3 } else { 0 };
+        for (name, t) in [("encode/decode rounds", trace_rounds), ("mul", trace_mul), ("fft", trace_fft), ("ifft", trace_ifft), ("eval_poly", trace_eval)] {
+            if t != best0 {
+                let case = Case { name: format!("mask avx2={} ssse3={}", avx2, ssse3), lines: vec![], with_model: false };
+                ctx.oracle_fail(format!("{} under the mask avx2={} ssse3={} executed ISAs {:?}; the most capable reported one is {:?} and must serve every primitive", name, avx2, ssse3, isa_names(t), isa_names(best0)), &case, None);
+            }
+        }
         // decision model
         let q = format!("L select x86 {} {}", avx2, ssse3);
         let expect = match ctx.model_eval(&[q.clone()]) {
